@@ -12,6 +12,7 @@ import (
 	"sort"
 	"strings"
 	"sync"
+	"sync/atomic"
 	"time"
 
 	"github.com/0xReLogic/Helios/internal/config"
@@ -31,7 +32,33 @@ func Quiet() {
 
 // BackendName / BackendHost give the synthetic identity of backend i in L1.
 func BackendName(i int) string { return fmt.Sprintf("b%d", i) }
-func BackendHost(i int) string { return fmt.Sprintf("b%d.test", i) }
+
+// hostStyle: how the addresses of the scripted backends look. Checks that draw it call SetHostStyle at the
+// start of a case (before the configuration is built) and keep it for the whole case; everything that names a
+// backend's host goes through BackendHost, so configuration, scripted network and oracles agree.
+var hostStyle atomic.Int32
+
+// HostStyles: 0 = one host name per backend (b0.test, b1.test, ...); 1 = one machine, one port per backend
+// (app.test:8081, app.test:8082, ... - the shipped helios.yaml's localhost:8081..8083); 2 = one IP address, one
+// port per backend; 3 = two machines with several ports each.
+const HostStyles = 4
+
+func SetHostStyle(s int) { hostStyle.Store(int32(((s % HostStyles) + HostStyles) % HostStyles)) }
+func HostStyleName() string {
+	return [...]string{"hosts=one-name-per-backend", "hosts=one-machine-many-ports", "hosts=one-ip-many-ports", "hosts=two-machines-many-ports"}[hostStyle.Load()]
+}
+
+func BackendHost(i int) string {
+	switch hostStyle.Load() {
+	case 1:
+		return fmt.Sprintf("app.test:%d", 8081+i)
+	case 2:
+		return fmt.Sprintf("10.20.30.40:%d", 9000+i)
+	case 3:
+		return fmt.Sprintf("node%d.test:%d", i%2, 7000+i/2)
+	}
+	return fmt.Sprintf("b%d.test", i)
+}
 
 // BaseConfig is a minimal valid configuration with n synthetic backends.
 func BaseConfig(strategy string, weights []int) *config.Config {
